@@ -517,20 +517,27 @@ func (c *Ctx) EveryCyclePasses(fnName string, sel Sel) bool {
 // the atoms conj (a path that took `x == 0` cannot be one on which `x == 4`
 // holds: earlier cases of a switch chain are no way around a later case's test).
 func bypasses(fn *ssa.Function, test *ssa.BasicBlock, site ssa.Instruction, conj []Atom) bool {
-	seen := map[*ssa.BasicBlock]bool{}
+	type key struct{ b, pred *ssa.BasicBlock }
+	seen := map[key]bool{}
 	target := site.Block()
-	var walk func(b *ssa.BasicBlock) bool
-	walk = func(b *ssa.BasicBlock) bool {
-		if b == test || seen[b] {
+	var walk func(b, pred *ssa.BasicBlock) bool
+	walk = func(b, pred *ssa.BasicBlock) bool {
+		if b == test || seen[key{b, pred}] {
 			return false
 		}
 		if b == target {
 			return true
 		}
-		seen[b] = true
+		seen[key{b, pred}] = true
 		if len(b.Instrs) > 0 {
 			if ifi, ok := b.Instrs[len(b.Instrs)-1].(*ssa.If); ok {
+				// a branch decided by the edge the block was entered through (an error
+				// variable set on the way and tested at a merge) has one feasible successor
+				taken, known := threadIf(ifi, pred)
 				for k, s := range b.Succs {
+					if known && (k == 0) != taken {
+						continue
+					}
 					contra := false
 					for _, f := range condFacts(ifi, ifi.Cond, k == 0, 0) {
 						if f.If != ifi {
@@ -542,7 +549,7 @@ func bypasses(fn *ssa.Function, test *ssa.BasicBlock, site ssa.Instruction, conj
 							}
 						}
 					}
-					if !contra && walk(s) {
+					if !contra && walk(s, b) {
 						return true
 					}
 				}
@@ -550,7 +557,7 @@ func bypasses(fn *ssa.Function, test *ssa.BasicBlock, site ssa.Instruction, conj
 			}
 		}
 		for _, s := range b.Succs {
-			if walk(s) {
+			if walk(s, b) {
 				return true
 			}
 		}
@@ -559,7 +566,7 @@ func bypasses(fn *ssa.Function, test *ssa.BasicBlock, site ssa.Instruction, conj
 	if len(fn.Blocks) == 0 {
 		return true
 	}
-	return walk(fn.Blocks[0])
+	return walk(fn.Blocks[0], nil)
 }
 
 // Contradicts: atoms a and b cannot hold together (decided only for the simple
